@@ -174,7 +174,16 @@ func (g *Gen) pkg(name string, foreign []target) (*Pkg, []target) {
 		for i, k := range plan {
 			switch k {
 			case KObject, KOneof, KEnum:
-				names[i] = g.uniq(g.typeNames, typeWords, g.entityPrefixed)
+				if len(foreign) > 0 && g.chance(1, 4) {
+					// a type named like a type of an earlier package (the short name is not an identity)
+					if c := pick(g, foreign); !strings.Contains(c.schema, ".") && !g.typeNames[c.schema] && !g.entityPrefixed(c.schema) {
+						names[i] = c.schema
+						g.typeNames[c.schema] = true
+					}
+				}
+				if names[i] == "" {
+					names[i] = g.uniq(g.typeNames, typeWords, g.entityPrefixed)
+				}
 				own = append(own, target{pkg: name, schema: names[i], kind: k, local: true})
 			}
 		}
@@ -184,6 +193,12 @@ func (g *Gen) pkg(name string, foreign []target) (*Pkg, []target) {
 			f.Elems = append(f.Elems, e)
 			own = append(own, more...)
 			g.avail = append(g.avail, more...)
+		}
+		if !g.Cfg.EntityOnly && g.chance(1, 3) {
+			if e := g.sameNamePair(); e != nil {
+				f.Elems = append(f.Elems, e)
+				own = append(own, target{pkg: name, schema: e.Object.Name, kind: KObject, local: true})
+			}
 		}
 		local = append(local, own...)
 		pkg.Files = append(pkg.Files, f)
@@ -197,6 +212,42 @@ func (g *Gen) pkg(name string, foreign []target) (*Pkg, []target) {
 		pkg.Files = append(pkg.Files[1:], pkg.Files[0])
 	}
 	return pkg, all
+}
+
+// sameNamePair: an object whose fields refer to two types that share their short name but live in
+// different packages (two imported packages, or the own package and an imported one), directly or as
+// array / map items. nil when the file can see no such pair.
+func (g *Gen) sameNamePair() *Elem {
+	type pair struct{ a, b target }
+	var pairs []pair
+	for i, a := range g.avail {
+		for _, b := range g.avail[i+1:] {
+			if a.schema == b.schema && a.pkg != b.pkg {
+				pairs = append(pairs, pair{a, b})
+			}
+		}
+	}
+	if len(pairs) == 0 {
+		return nil
+	}
+	pr := pick(g, pairs)
+	if g.chance(1, 2) {
+		pr.a, pr.b = pr.b, pr.a
+	}
+	mk := func(t target) *Field {
+		kind := map[string]string{KObject: FObject, KOneof: FOneof, KEnum: FEnum}[t.kind]
+		f := &Field{Kind: kind, Ref: g.refTo(t)}
+		switch g.n(3) {
+		case 0:
+			return &Field{Kind: FArray, Items: f}
+		case 1:
+			return &Field{Kind: FMap, Items: f}
+		}
+		return f
+	}
+	name := g.uniq(g.typeNames, []string{"Pair", "Both", "Twin"}, nil)
+	return &Elem{Kind: KObject, Object: &Object{Name: name, Props: []*Prop{
+		{Name: "first", Field: mk(pr.a)}, {Name: "second", Field: mk(pr.b)}}}}
 }
 
 var entityTaken = map[string]bool{}
